@@ -110,6 +110,17 @@ def programs(depth, full=True):
             yield x
 
 
+def programs_wrapped(prev, level_no):
+    """One more level of every binder and context form around the programs in PREV."""
+    bf, cf = binder_forms(True), context_forms()
+    for pn, p in prev:
+        for bn, f in bf:
+            for xn, xs in small(level_no)[:1]:
+                yield "%s{%s}(%s)" % (bn, xn, pn), f(xs, p)
+        for cn, f in cf:
+            yield "%s(%s)" % (cn, pn), f(p)
+
+
 def count_programs(depth):
     return sum(1 for _ in programs(depth))
 
@@ -148,6 +159,8 @@ def judge(name, t, r, core_words):
         return [], "unjudged"
     except zwmodel.HardError as e:
         return [], "unjudged"
+    if len(exp) >= 1400:
+        return [], "unjudged"       # more results than the driver is asked to pull
     odd = [l for l in r.lines if not l.startswith("r ")]
     if odd:
         return v("odd", "unexpected engine output %r (model expects %d results)" % (odd[:3], len(exp))), "odd"
@@ -181,7 +194,13 @@ def _worker(d, task, extra):
                 out["sample"] = {"program": zwmodel.render(t), "results": r.results()}
         del pending[:n]
 
-    for name, t in itertools.islice(programs(depth), k, None, m):
+    if depth == 3:
+        # depth 3 = one more level around a stride sample of the depth-2 programs (all of depth 2 is covered separately)
+        base = list(itertools.islice(programs(2), k, None, m))
+        src = programs_wrapped(base, 3)
+    else:
+        src = itertools.islice(programs(depth), k, None, m)
+    for name, t in src:
         d.send([drv.run_cmd(zwmodel.render(t), lim=1500)])
         pending.append((name, t))
         if len(pending) >= 40:
@@ -229,8 +248,10 @@ def main(ctx):
         parts.insert(0, (2, binary))
     outcomes = {}
     for dep, b in parts:
-        m = 64 if dep == 2 else 1024
-        for r in common.pmap(ctx, _worker, [(dep, k, m) for k in range(m)], b, "core", extra={"codes": codes, "core_words": words}, timeout=60):
+        m = 64 if dep == 2 else 2048
+        # depth 3: every 8th depth-2 program is wrapped once more by every form
+        tl = [(dep, k, m) for k in range(m)] if dep == 2 else [(dep, k, m) for k in range(0, m, 8)]
+        for r in common.pmap(ctx, _worker, tl, b, "core", extra={"codes": codes, "core_words": words}, timeout=60):
             ctx.count("programs", r["programs"])
             ctx.count("programs_depth_%d" % dep, r["programs"])
             ctx.count("pulls", r["pulls"])
@@ -251,7 +272,7 @@ def main(ctx):
         "rule": "state = one binder program compiled and run to exhaustion on the empty stack; distinct = distinct program text; every program has at least "
                 "one name read under at least one binder or context; outcomes: ok:<#results>, err:<class>, unjudged",
         "bounds": {"nesting_depth": depth, "binder_forms": [b[0] for b in binder_forms(True)], "context_forms": [c[0] for c in context_forms()],
-                   "note": "depth 3 (thorough) runs on the non-sanitized engine and uses one bound expression per binder at the outermost level"},
+                   "note": "depth 3 (thorough): every 8th depth-2 program wrapped once more by every binder and context form, on the non-sanitized engine"},
     }
     return ctx.finish("model_checking", cov, [
         "reference interpreter and its static scope analysis implement the 'Name binding' section of doc/syntax.rst (sub-expression contexts, ALT/OR branches, "
